@@ -180,9 +180,21 @@ def compile_desc(desc, watch=True, include_source=False):
     return m
 
 
+def builtin_module(which):
+    """A module of the repository itself used as system under test: 'meta' is the shipped,
+    itself-generated parser of the grammar language (sourcer/parser.py, with its own copy of _run)."""
+    if which == 'meta':
+        import sourcer.parser as P
+        mon.watch(mon.codes_of_module(P))
+        return P
+    raise ValueError(which)
+
+
 def generated_codes(m):
     """Code objects compiled from generated source (file name '<...>'): not the re module's compile
     that a grammar module imports, not the harness callbacks it is armed with."""
+    if getattr(m, '__name__', '') == 'sourcer.parser':
+        return mon.codes_of_module(m)
     return [c for c in mon.codes_of_module(m) if c.co_filename.startswith('<') and c.co_filename.endswith('>')]
 
 
